@@ -466,6 +466,11 @@ class World(object):
                       if isinstance(v, (int, float, str, type(None))))
             seq = sim.rec('hook', wname, hook_name, out)
             calls.append((seq, sim.now, wname, hook_name, out, kw))
+            if isinstance(out, str) and out.startswith('block:'):
+                # a hook that takes its time (waits for a dependency): the
+                # daemon is blocked meanwhile
+                sim.sleep(float(out[6:]))
+                return True
             if out == 'raise':
                 raise ScriptedFailure('hook %s scripted failure' % hook_name)
             if out == 'true':
